@@ -3,6 +3,8 @@ package main
 import (
 	"fmt"
 	"go/ast"
+	"go/parser"
+	"go/token"
 	"os"
 	"path/filepath"
 	"strings"
@@ -113,6 +115,18 @@ func want(src string) string {
 }
 
 func canon(f *gofacts.File, fd *ast.FuncDecl) string { return tidy(f.Canon(fd)) }
+
+// wantStmt: canonical form of one statement (as it stands inside a function body)
+func wantStmt(src string) string {
+	fset := token.NewFileSet()
+	pf, err := parser.ParseFile(fset, "x.go", "package p\nfunc f() {\n"+src+"\n}", parser.SkipObjectResolution)
+	if err != nil {
+		fmt.Fprintln(os.Stderr, "c16 extract: bad statement template:", err)
+		os.Exit(2)
+	}
+	file := &gofacts.File{Fset: fset, AST: pf}
+	return file.Canon(pf.Decls[0].(*ast.FuncDecl).Body.List[0])
+}
 
 // is reports whether the declaration recv.name of f has exactly the canonical shape of src.
 func is(f *gofacts.File, recv, name, src string) bool {
@@ -308,6 +322,32 @@ func doExtract(repo string) extracted {
 			if got == want(tmplQuit(o, a, b, c, d)) {
 				x.quitOnce, x.quitOnExit, x.quitDec, x.quitCloseQ, x.quitCloseConn = o, a, b, c, d
 				x.facts[9] = true
+			}
+		}
+	}
+	if fd := sess.Func("Session", "quit"); fd != nil && !x.facts[9] {
+		// not one of the known shapes (e.g. the effects in another order): the shape fact stays false — the tie is
+		// broken — but the oracle still follows which effects are there, so that only the tie reports it
+		stmts := fd.Body.List
+		if len(stmts) == 1 {
+			if es, ok := stmts[0].(*ast.ExprStmt); ok {
+				if call, ok := es.X.(*ast.CallExpr); ok && sess.Src(call.Fun) == "s.exitOnce.Do" && len(call.Args) == 1 {
+					if fl, ok := call.Args[0].(*ast.FuncLit); ok {
+						x.quitOnce, stmts = true, fl.Body.List
+					}
+				}
+			}
+		}
+		for _, st := range stmts {
+			switch tidy(sess.Canon(st)) {
+			case tidy(wantStmt("if s.rh != nil { s.rh.OnExit(s) } else { s.b.rh.OnExit(s) }")):
+				x.quitOnExit = true
+			case tidy(wantStmt("s.b.count.Dec()")):
+				x.quitDec = true
+			case tidy(wantStmt("s.sendQ.Close()")):
+				x.quitCloseQ = true
+			case tidy(wantStmt("if s.conn != nil { var err = s.conn.Close(); if err != nil { } }")):
+				x.quitCloseConn = true
 			}
 		}
 	}
